@@ -500,7 +500,7 @@ def tasks(tier, scale=1.0):
     from .c01 import small_formats
     fmts = list(small_formats(6))
     out = [('boundary-%d' % i, 'task_boundary', {'fmts': fmts[i::16]}) for i in range(16)]
-    n, steps = (150, 30) if tier == 'quick' else (1500, 50)
+    n, steps = (150, 30) if tier == 'quick' else (4000, 50)
     n = int(n * scale)
     out += [('machine-%d' % i, 'task_machine', {'n': n, 'steps': steps}) for i in range(16)]
     return out
